@@ -55,6 +55,11 @@ FIXED = [
     "( ) cast as Q{http://www.w3.org/2001/XMLSchema}integer ?", "( ) instance of Q{http://www.w3.org/2001/XMLSchema}integer *",
     "( 1 , 2 ) treat as Q{http://www.w3.org/2001/XMLSchema}integer +", "( ) castable as Q{http://www.w3.org/2001/XMLSchema}date ?",
     "let $ count := 1 return $ count + 1", "for $ string in ( 1 , 2 ) return $ string * 2",
+    "function ( $a as attribute ( x ) ) { 1 }", "function ( $a as attribute ( x , xs:untypedAtomic ) * ) { $a } ( ( ) )",
+    "function ( $a as element ( * , xs:untyped ? ) ) { 1 }", "a / element ( Q{}b )", "a / element ( Q{http://example.com/ns/p}b )",
+    "a / attribute ( Q{}y )", ". instance of element ( * , Q{http://www.w3.org/2001/XMLSchema}untyped )",
+    "@x instance of attribute ( Q{}x , Q{http://www.w3.org/2001/XMLSchema}untypedAtomic )", "a / attribute ( p:z )",
+    "map { a : b }", "a ! map { b : c , 1 : d }",
 ]
 
 
